@@ -187,6 +187,13 @@ Definition handle (i : inbound) (s : cst) : cst :=
     if failing then swallow s' else s'          (* a failure left at the end of a chain is reported to nobody either *)
   end.
 
+(* A history lists the calls in the order in which the callee CONCLUDES them, which is not the order of arrival: a rejected call is
+   concluded while it is being parsed (reportViolation -> callFailed hands its `error` to send() at once); a delivery is only queued
+   on arrival and concluded in a later turn, when its chain reaches _callFinished / callFailed -- after the deliveries queued before
+   it, after a stall on a gift, after the method's Deferred fired.  So a call rejected after three deliveries arrived stands BEFORE
+   them in the history (observed on the real Broker: harness DeliveryLog.history).  The theorems quantify over every list.  `handle`
+   folds the arrival-time entry into activeLocalCalls (register) into the same step: for distinct request ids that is unobservable
+   (no step looks at another call's entry). *)
 Definition handle_all (ins : list inbound) (s : cst) : cst := fold_left (fun s i => handle i s) ins s.
 
 Definition cinit0 : cst := {| active := []; sent := []; cup := true; swallowed := 0 |}.
